@@ -100,6 +100,11 @@ type c16Case struct {
 
 func c16Gen(tier string, emit func(c16Case)) {
 	emit(c16Case{Kind: "bad"})
+	// a resource registered on a router that has ALREADY served requests for its paths (through generic routes, with
+	// the route cache on), and after a group without middleware whose body called Use
+	for _, capN := range []int{0, 2, 64} {
+		emit(c16Case{Kind: "late", Cache: capN})
+	}
 	// several resources (12+ routes of one method in one bucket) next to another dynamic route of the same first segment
 	for where := 0; where < 4; where++ {
 		for _, base := range []string{"/api/{t}/", "/{t}/", "/api/"} {
@@ -179,6 +184,52 @@ func c16Run(c c16Case, st *fw.Stats) []fw.Viol {
 		want := "DELETE /c16bad/{id} c16bad_delete mw=0"
 		if strings.Join(got, "; ") != want {
 			add("resource:wrong-shaped-methods", fmt.Sprintf("controller with unexported / wrong-signature action methods: routes [%s], expected only [%s]", strings.Join(got, "; "), want))
+		}
+		return vs
+	}
+	if c.Kind == "late" {
+		rec := &c16Rec{}
+		r := rux.New()
+		if c.Cache > 0 {
+			r = rux.New(rux.CachingWithNum(uint16(c.Cache)))
+		}
+		generic := func(x *rux.Context) { rec.log = append(rec.log, "generic") }
+		guard := func(x *rux.Context) { rec.log = append(rec.log, "guard") }
+		res := "/res127"
+		type q struct{ m, p, want string }
+		qs := []q{{"GET", res, "action:Index:"}, {"GET", res + "/create", "action:Create:"}, {"POST", res, "action:Store:"}, {"GET", res + "/1", "action:Show:1"}, {"GET", res + "/2", "action:Show:2"},
+			{"GET", res + "/1/edit", "action:Edit:1"}, {"PUT", res + "/1", "action:Update:1"}, {"PUT", res + "/2", "action:Update:2"}, {"PATCH", res + "/1", "action:Update:1"}, {"PATCH", res + "/2", "action:Update:2"},
+			{"DELETE", res + "/1", "action:Delete:1"}, {"DELETE", res + "/2", "action:Delete:2"}, {"HEAD", res + "/2", "generic"}} // (the generic route allows HEAD itself: a direct match beats the HEAD->GET fallback)
+		if pv := try(func() {
+			r.Any("/{a}", generic)
+			r.Any("/{a}/{b}", generic)
+			r.Any("/{a}/{b}/{c}", generic)
+			// a group WITHOUT middleware of its own whose body adds one with Use (it belongs to that group only)
+			r.Group("/admin", func() {
+				r.Use(guard)
+				r.GET("/panel", generic)
+			})
+			for round := 0; round < 2; round++ {
+				for _, x := range qs {
+					r.ServeHTTP(httptest.NewRecorder(), httptest.NewRequest(x.m, x.p, nil))
+				}
+			}
+			r.Resource("/", c16New(127, false, rec))
+		}); pv != nil {
+			add("resource:panic", fmt.Sprintf("late resource registration (cache capacity %d) panicked: %v", c.Cache, pv))
+			return vs
+		}
+		for round := 0; round < 2; round++ {
+			for _, x := range qs {
+				st.Evals++
+				st.Nontrivial++
+				rec.log = rec.log[:0]
+				if pv := try(func() { r.ServeHTTP(httptest.NewRecorder(), httptest.NewRequest(x.m, x.p, nil)) }); pv != nil {
+					add("resource:serve-panic", fmt.Sprintf("resource registered late: %s %s panicked: %v", x.m, x.p, pv))
+				} else if got := strings.Join(rec.log, " "); got != x.want {
+					add("resource:dispatch", fmt.Sprintf("router (route cache capacity %d) with generic routes /{a}, /{a}/{b}, /{a}/{b}/{c} and a group without middleware whose body called Use; every request was served twice, THEN Resource(\"/\", all seven actions) was registered: %s %s ran [%s], the documented table gives [%s]", c.Cache, x.m, x.p, got, x.want))
+				}
+			}
 		}
 		return vs
 	}
@@ -537,7 +588,7 @@ var c16Spec = fw.Spec[c16Case]{
 	Workers: 1,
 	// the only nondeterminism is Go's map iteration order inside Resource (code under test): a confirmation replay may be retried
 	ReplayAttempts: 40,
-	Rule: "complete enumeration: all 128 subsets of the seven actions as controller method sets (generated types) x with/without Uses() (two distinct middleware, closures of one function literal, for every action, implemented or not) x base in {/, /api/, \"\", /{t}/, /{t:[a-z]{4}}/ (a variable in the base path, plain and with a regex)}; four resources at once next to a more specific dynamic route of the same first segment x outside a group / inside Group(/g) / inside Group(/) (group middleware passed with spare capacity) (+ outside a group on a router with a route cache of capacity 1 or 2, all probes issued twice in two orders); the same controller (whose Uses() table is one shared map) registered twice; the registration order inside Resource is DRIVEN through the insertion order of the exported rux.RESTFulActions map and OBSERVED from rux's own debug print; registration is repeated until every permutation of the implemented actions (k<=4, thorough k<=6 on the plain base; all rotations of two base orders beyond) has been observed, or until >12 differently driven registrations all showed one and the same order of >=2 actions (the order then does not come from the map: counter registration_order_independent_of_map_order); " +
+	Rule: "complete enumeration: all 128 subsets of the seven actions as controller method sets (generated types) x with/without Uses() (two distinct middleware, closures of one function literal, for every action, implemented or not) x base in {/, /api/, \"\", /{t}/, /{t:[a-z]{4}}/ (a variable in the base path, plain and with a regex)}; four resources at once next to a more specific dynamic route of the same first segment; a resource registered after its paths were already served by generic routes (route cache off / 2 / 64) and after a middleware-less group whose body called Use x outside a group / inside Group(/g) / inside Group(/) (group middleware passed with spare capacity) (+ outside a group on a router with a route cache of capacity 1 or 2, all probes issued twice in two orders); the same controller (whose Uses() table is one shared map) registered twice; the registration order inside Resource is DRIVEN through the insertion order of the exported rux.RESTFulActions map and OBSERVED from rux's own debug print; registration is repeated until every permutation of the implemented actions (k<=4, thorough k<=6 on the plain base; all rotations of two base orders beyond) has been observed, or until >12 differently driven registrations all showed one and the same order of >=2 actions (the order then does not come from the map: counter registration_order_independent_of_map_order); " +
 		"per observed order: Routes()/NamedRoutes() equal the documented table exactly, all 9 methods x 8 probe paths dispatch as the reference resolver says over that table (create never served by show, nothing else reachable), per-action middleware runs only for its action; non-pointer / non-struct / wrong-shaped controllers; non-trivial = a distinct (subset, order) registration",
 	Assume: []string{"runs single-threaded: RESTFulActions, the debug switch and the colour output are process-global", "Go's small-map iteration starts at a random offset of the insertion order; an order not seen within 400 draws is reported as a cap, never as a violation"},
 	Bounds: func(tier string) map[string]any {
